@@ -69,6 +69,8 @@ def lattice_pair(rng):
     elif mode == 'nested':
         ca = G.rect_cells(0, 0, 6, 6); x, y = rng.randint(1, 3), rng.randint(1, 3)
         cb = G.rect_cells(x, y, x + rng.randint(1, 2), y + rng.randint(1, 2))
+        if rng.random() < 0.5:
+            ca, cb = cb, ca          # the receiver is the inner one
     elif mode == 'share_edge':
         w = rng.randint(1, 4); ca = G.rect_cells(0, 0, w, 3); cb = G.rect_cells(w, rng.randint(-1, 1), w + rng.randint(1, 3), 3 + rng.randint(-1, 2))
     elif mode == 'share_corner':
